@@ -64,9 +64,22 @@ Fixpoint nodup_b (l : list Z) : bool :=
 Definition unique_at (span : list Z) (i : nat) : bool :=
   match nth_error span i with Some x => (count_of x span =? 1)%nat | None => false end.
 
-(* ---- next(model.iter_periods(...)) ----
-   KEPT FINDING: PeriodIter.__next__ is `return next(self._iter)` where self._iter is a LIST, so next() on the object that
-   iter_periods() returns raises TypeError ('list' object is not an iterator) whenever iter_periods() itself returned — it never
-   yields the first (position, label) pair.  (for / list() / enumerate(), which solve() uses, go through __iter__ and work.) *)
+(* ---- the object iter_periods() returns (PeriodIter), since fix 7e39627 ----
+   It holds the list of (position, label) pairs and a cursor over it: next() yields the pairs one after the other and raises
+   StopIteration (modelled as OtherError) when they are used up; iterating it (for / list() / enumerate(), what solve() does)
+   always yields ALL pairs from the start, however far the cursor has moved; len() is the length of the index range. *)
 Definition period_iter_next_M {L : Type} (r : outcome (nat * list (Z * L))) : outcome (Z * L) :=
-  match r with Ret _ => Raise TypeError | Raise e => Raise e end.
+  match r with
+  | Ret (_, p :: _) => Ret p
+  | Ret (_, []) => Raise OtherError
+  | Raise e => Raise e
+  end.
+
+(* the protocol exercised by the correspondence: pi = iter_periods(..); a = next(pi); b = next(pi); l1 = list(pi); l2 = list(pi); len(pi)
+   -> (len, [a; b] ++ l1 ++ l2); StopIteration from either next() ends it *)
+Definition period_iter_protocol_M {L : Type} (r : outcome (nat * list (Z * L))) : outcome (nat * list (Z * L)) :=
+  match r with
+  | Ret (len, a :: b :: rest) => Ret (len, a :: b :: (a :: b :: rest) ++ (a :: b :: rest))
+  | Ret (_, _) => Raise OtherError
+  | Raise e => Raise e
+  end.
